@@ -289,4 +289,25 @@ Section SlicedPass.
           mk_x (xw_refs x) (sw', xw_sl x, lift evs, r)
         else mk_x (xw_refs x) (sliced_active (xw_sw x) (xw_refs x) (xw_sl x) mem)
     end.
+
+  (** The same with a failing read: [fault] = Some i means the i-th (0-based) Get of an ObjectSlice issued by the
+      teardown handler fails with an error other than NotFound (timeout, 5xx, transport error). loadForTeardown reads
+      every referenced slice in order (a NotFound is skipped, anything else is returned), the handler returns that
+      error before the actual teardown starts, handleDeletionAndArchival returns it and Reconcile returns it
+      without a status update. The handler only runs while the ObjectSet carries the cached finalizer. *)
+  Definition slice_reads (sphs : list sphase) : nat := length (flat_map sp_slices sphs).
+  Definition fault_hits (fault : option nat) (t : refs_tbl) (mem : oset) : bool :=
+    os_fin mem && match fault with Some i => Nat.ltb i (slice_reads (set_sphases t mem)) | None => false end.
+
+  Definition sliced_pass_faulty (fault : option nat) (x : xworld) (kind ns name : N) : xworld * list xev * sres :=
+    match find_set (sw_sets (xw_sw x)) kind ns name with
+    | None => (x, [], SNothing)
+    | Some mem =>
+        if cond_true (os_conds mem) CArchived then (x, [], SNothing) else
+        if os_deleting mem || lifecycle_eqb (os_life mem) LArchived then
+          if fault_hits fault (xw_refs x) mem then (x, [], SError) else
+          let '(sw', evs, r) := deletion_pass force (xw_sw x) (inline_set (xs_store (xw_sl x)) (xw_refs x) mem) in
+          mk_x (xw_refs x) (sw', xw_sl x, lift evs, r)
+        else mk_x (xw_refs x) (sliced_active (xw_sw x) (xw_refs x) (xw_sl x) mem)
+    end.
 End SlicedPass.
